@@ -89,13 +89,25 @@ def check_run(groups, observed):
 
 
 class SystemActionRef:
-    """CmdPeriod / StartUp / ShutDown: add, remove, do_once, run."""
+    """CmdPeriod / StartUp / ShutDown: add, remove, do_once, run; StartUp:
+    defer (register, or - once the registry has run - evaluate at once).
 
-    def __init__(self):
+    `remover` / `target`: the action `remover`, when it runs, removes the
+    action `target` from the registry.  The target then is no longer
+    registered; whether it still runs in the *same* run is decided only when
+    it is demanded to run before the remover (then it must), otherwise both
+    answers are accepted (`run` reports it as optional)."""
+
+    def __init__(self, remover=None, target=None, track_done=False):
+        self.track_done = track_done    # `done` is part of the state
         self.tick = _Ticker()
         self.reg = OrderedReg(self.tick)
         self.nonce = 0
         self.changes = {}
+        self.done = False
+        self.remover = remover
+        self.target = target
+        self.optional = []
 
     def _chg(self, key):
         self.changes[key] = self.changes.get(key, 0) + 1
@@ -117,10 +129,28 @@ class SystemActionRef:
         for k in list(self.reg.items):
             self.reg.remove(k)
 
+    def defer(self, action, args):
+        """-> True if the action must be evaluated at once (not registered),
+        False if it was registered."""
+        if self.done:
+            return True
+        self.add(action, args)
+        return False
+
     def run(self):
         """-> the single group of entries that must run; one-time entries are
-        gone afterwards."""
+        gone afterwards.  self.optional: keys of that group that may also
+        stay away (removed by the remover action during this run)."""
+        self.done = True
         ent = self.reg.entries()
+        self.optional = []
+        rem = [e for e in ent if e['key'] == ('a', self.remover)]
+        tgt = [e for e in ent if e['key'] == ('a', self.target)]
+        if rem and tgt:
+            if not _must_precede(tgt[0], rem[0]):
+                self.optional.append(tgt[0]['key'])
+            self.reg.remove(tgt[0]['key'])
+            self._chg(self.target)
         for e in ent:
             if e['key'][0] == 'once':
                 self.reg.remove(e['key'])
@@ -132,7 +162,8 @@ class SystemActionRef:
                        {v[1] for v in self.reg.items.values()})
         rk = {c: i for i, c in enumerate(ranks)}
         return [[k[0], k[-1], rk[v[0]], rk[v[1]], v[2]]
-                for k, v in self.reg.items.items()]
+                for k, v in self.reg.items.items()] + \
+            (['done'] if self.done and self.track_done else [])
 
     def nontrivial(self):
         return any(n >= 2 for n in self.changes.values())
@@ -204,10 +235,17 @@ class NotificationRef:
     def _chg(self, key):
         self.changes[key] = self.changes.get(key, 0) + 1
 
-    def register(self, obj, msg, listener, action):
+    def register(self, obj, msg, listener, action, once=False):
+        """once: the registration is gone after the first notification."""
         self.regs.setdefault((obj, msg), OrderedReg(self.tick)).add(
-            listener, action)
+            listener, [action, True] if once else action)
         self._chg((obj, msg, listener))
+
+    def clear(self):
+        for k, g in self.regs.items():
+            for ls in g.items:
+                self._chg((k[0], k[1], ls))
+        self.regs = {}
 
     def exists(self, obj, msg=None, listener=None):
         if msg is None:
@@ -229,7 +267,15 @@ class NotificationRef:
 
     def notify(self, obj, msg):
         g = self.regs.get((obj, msg))
-        return [g.entries() if g is not None else []]
+        ent = g.entries() if g is not None else []
+        out = []
+        for e in ent:
+            if isinstance(e['payload'], list):      # one-shot registration
+                g.remove(e['key'])
+                self._chg((obj, msg, e['key']))
+                e = dict(e, payload=e['payload'][0])
+            out.append(e)
+        return [out]
 
     def key(self):
         allr = sorted({r for g in self.regs.values()
@@ -255,6 +301,7 @@ def selftest():
     assert check_run(g, keys[:2])[0] == 'missing'
     assert check_run(g, keys + keys[:1])[0] == 'extra'
     assert check_run(g, [keys[1], keys[0], keys[2]])[0] == 'order'
+    assert s.defer('a2', [2]) is True and ('a', 'a2') not in s.reg
     g = s.run()
     assert [e['key'][-1] for e in g[0]] == ['a0', 'a1']     # once is gone
     s.add('a0', [0])                     # registered again: place undecided
@@ -265,6 +312,15 @@ def selftest():
     s.add('a0', [0])                     # removed and added: now after a1
     g = s.run()
     assert check_run(g, [k1, k0]) is None and check_run(g, [k0, k1])
+    r = SystemActionRef('r0', 'a1')
+    assert r.defer('a1', [1]) is False
+    r.add('r0', [0])
+    g = r.run()             # the target was there first: it must run
+    assert [e['key'][-1] for e in g[0]] == ['a1', 'r0'] and not r.optional
+    assert [e['key'][-1] for e in r.run()[0]] == ['r0']
+    r.add('a1', [1])
+    g = r.run()             # registered after the remover: may stay away
+    assert r.optional == [('a', 'a1')] and ('a', 'a1') not in r.reg
     v = ServerActionRef('s')
     v.add('s', 'a0', [])
     v.add('all', 'a0', [])
@@ -291,6 +347,13 @@ def selftest():
     assert [e['payload'] for e in n.notify('o', 'm')[0]] == ['f1']
     n.unregister('o')
     assert not n.exists('o') and n.notify('o', 'm') == [[]]
+    n.register('o', 'm', 'l0', 'f0', once=True)
+    n.register('o', 'm', 'l1', 'f1')
+    assert [e['payload'] for e in n.notify('o', 'm')[0]] == ['f0', 'f1']
+    assert [e['payload'] for e in n.notify('o', 'm')[0]] == ['f1']
+    assert not n.exists('o', 'm', 'l0') and n.exists('o', 'm', 'l1')
+    n.clear()
+    assert n.notify('o', 'm') == [[]] and not n.exists('o')
     return True
 
 
